@@ -141,10 +141,13 @@ class Scenario(object):
             self.uni_list = list(self.uni)          # the caller's own list, handed to the universe as the API expects
             self.uni_obj = StaticUniverse(self.uni_list)
         uni = self.uni_obj
-        if self.kind == "dw":
-            sizer = DollarWeightedCashBufferedOrderSizer(self.broker, "pf", self.handler, cash_buffer_percentage=float(Fraction(self.par)))
-        else:
-            sizer = LongShortLeveragedOrderSizer(self.broker, "pf", self.handler, gross_leverage=float(Fraction(self.par)))
+        # one order sizer per scenario, used at every rebalance (as in a backtest)
+        if getattr(self, "sizer", None) is None:
+            if self.kind == "dw":
+                self.sizer = DollarWeightedCashBufferedOrderSizer(self.broker, "pf", self.handler, cash_buffer_percentage=float(Fraction(self.par)))
+            else:
+                self.sizer = LongShortLeveragedOrderSizer(self.broker, "pf", self.handler, gross_leverage=float(Fraction(self.par)))
+        sizer = self.sizer
         alpha = None
         if self.alpha is not None:
             items = list(self.alpha.items())
